@@ -14,7 +14,7 @@ from .. import fixtures as F
 from .. import history as H
 
 PID = 'C18'
-RULE = ('BFS over all operation sequences up to the depth bound over {export, export(add_bn=False) [PIT], summary, cost|get_cost(name), '
+RULE = ('BFS over all operation sequences up to the depth bound over {export, export(add_bn=False) [PIT], summary, cost | get_cost(a) | get_cost(b), '
         'cost_specification := other, := original, forward, training step, train()/eval()} on PIT / MPS (per-layer, per-channel) / SuperNet (soft, Gumbel) models with a layer '
         'used twice, a fixed layer and BatchNorm, in train and eval mode, full_cost off/on; every explored history is executed on a fresh real '
         'model together with its observer-free twin and the two probes are compared; non-trivial = a history containing at least one observer')
@@ -74,8 +74,9 @@ def _apply(nas, x, op, st, dspec, other):
         nas.summary()
     elif op == 'cost':
         nas.cost
-    elif op == 'get_cost':
+    elif op == 'get_cost_a':
         nas.get_cost('a')
+    elif op == 'get_cost_b':
         nas.get_cost('b')
     elif op == 'to_train':
         nas.train()
@@ -225,7 +226,8 @@ def run_case(case, seed):
             ops.remove('export')     # per-channel MPS export is documented as unsupported (README; C02 is per-layer only)
         if method == 'pit':
             ops.append('export_nobn')
-        ops += ['get_cost', 'spec_other'] if spec == 'orig' else ['cost', 'spec_orig']
+        # the two metrics are separate letters: "in any order" includes which metric is queried first
+        ops += ['get_cost_a', 'get_cost_b', 'spec_other'] if spec == 'orig' else ['cost', 'spec_orig']
         return ops
 
     def run(hist):
